@@ -32,7 +32,9 @@
 //!   {"ev":"link","res":{"ok":{"bases":[A per obj],"loaded":[names]}}}
 //!   {"ev":"lmemory"|"lentries"|"lsymbols"|"lpentry", ...}     same payloads as above
 
-use falcon::loader::{Elf, ElfLinker, Loader};
+use falcon::il;
+use falcon::loader::{Elf, ElfLinker, Json, Loader};
+use falcon::translator::Options;
 use falcon::memory::backing::Memory;
 use falcon::memory::MemoryPermissions;
 use fv::{arg_str, arg_u64, guard, guard_plain, Out, Rng};
@@ -691,8 +693,47 @@ fn queries(prefix: &str, out: &mut Out, loader: &dyn Loader, rng: &mut Rng) {
     out.emit(&json!({ "ev": format!("{}pentry", prefix), "res": pe.json(|a| addr(*a)) }));
 }
 
-/// one load of one image: Elf::new at `base`, user entries, every query
-fn observe(out: &mut Out, bytes: &[u8], base: u64, users: &[u64], rng: &mut Rng) {
+/// direct call targets found in the lifted code of a function: constant Branch targets
+fn call_targets(f: &il::Function) -> Vec<u64> {
+    let mut v = Vec::new();
+    for b in f.blocks() {
+        for i in b.instructions() {
+            if let il::Operation::Branch { target } = i.operation() {
+                if let Ok(c) = falcon::executor::eval(target) {
+                    if let Some(t) = c.value_u64() {
+                        v.push(t);
+                    }
+                }
+            }
+        }
+    }
+    v.sort();
+    v.dedup();
+    v
+}
+
+fn program_json(r: &(il::Program, Vec<(falcon::loader::FunctionEntry, falcon::Error)>)) -> Value {
+    let mut funcs: Vec<&il::Function> = r.0.functions();
+    funcs.sort_by_key(|f| (f.address(), f.index()));
+    json!({
+        "funcs": funcs.iter().map(|f| json!({ "addr": addr(f.address()), "name": f.name(),
+            "calls": call_targets(f).iter().map(|t| addr(*t)).collect::<Vec<_>>() })).collect::<Vec<_>>(),
+        "errors": r.1.iter().map(|(e, err)| json!({ "addr": addr(e.address()), "name": e.name().unwrap_or(""),
+            "err": fv::err_name(err) })).collect::<Vec<_>>(),
+    })
+}
+
+/// Loader::program_verbose and Loader::program_recursive_verbose
+fn lift_events(prefix: &str, out: &mut Out, loader: &dyn Loader) {
+    let r = guard(|| loader.program_verbose(&Options::default()));
+    out.emit(&json!({ "ev": format!("{}program", prefix), "res": r.json(program_json) }));
+    let r = guard(|| loader.program_recursive_verbose(&Options::default()));
+    out.emit(&json!({ "ev": format!("{}rprogram", prefix), "res": r.json(program_json) }));
+}
+
+/// one load of one image: Elf::new at `base`, user entries, every query (and, if `lift`, the
+/// lifted programs)
+fn observe(out: &mut Out, bytes: &[u8], base: u64, users: &[u64], rng: &mut Rng, lift: bool) {
     out.emit(&json!({ "ev": "load", "base": addr(base), "users": users.iter().map(|u| addr(*u)).collect::<Vec<_>>() }));
     let r = guard(|| Elf::new(bytes.to_vec(), base));
     out.emit(&json!({ "ev": "new", "res": r.json(|_| json!(1)) }));
@@ -710,6 +751,9 @@ fn observe(out: &mut Out, bytes: &[u8], base: u64, users: &[u64], rng: &mut Rng)
         other => out.emit(&json!({ "ev": "arch", "res": other.json(|_| json!(0)) })),
     }
     queries("", out, &elf, rng);
+    if lift {
+        lift_events("", out, &elf);
+    }
 }
 
 fn bases_for(is64: bool) -> Vec<u64> {
@@ -872,10 +916,21 @@ fn gen_image(rng: &mut Rng) -> (Image, Vec<u64>) {
 }
 
 fn session(out: &mut Out, id: u64, src: &str, img: &Image, users: &[u64], rng: &mut Rng) {
+    session_with(out, id, src, img, users, rng, None)
+}
+
+/// `extra`: further fields of the description (the intended call graph of generated code)
+fn session_with(out: &mut Out, id: u64, src: &str, img: &Image, users: &[u64], rng: &mut Rng, extra: Option<Value>) {
     let wr = write_elf(img);
-    out.emit(&json!({ "ev": "begin", "id": id, "src": src, "desc": desc_json(img, &wr), "file": hex(&wr.file) }));
+    let mut desc = desc_json(img, &wr);
+    if let Some(Value::Object(m)) = extra {
+        for (k, v) in m {
+            desc[k] = v;
+        }
+    }
+    out.emit(&json!({ "ev": "begin", "id": id, "src": src, "desc": desc, "file": hex(&wr.file) }));
     for base in bases_for(img.combo.is64) {
-        observe(out, &wr.file, base, users, rng);
+        observe(out, &wr.file, base, users, rng, src == "code");
     }
 }
 
@@ -909,6 +964,132 @@ fn mode_enum(out: &mut Out, maxsz: u64, rng: &mut Rng) {
                 }
             }
         }
+    }
+}
+
+// ------------------------------------------------------------------------------------------
+// generated code images: a text segment made of a few hand-picked instruction words per
+// architecture (nop, direct call, return), with a known call graph
+// ------------------------------------------------------------------------------------------
+fn word_bytes(c: Combo, w: u32) -> Vec<u8> {
+    // AArch64 instructions are little-endian whatever the data encoding is
+    let le = c.le || c.machine == EM_AARCH64;
+    if le { w.to_le_bytes().to_vec() } else { w.to_be_bytes().to_vec() }
+}
+
+fn enc_nop(c: Combo) -> Vec<u8> {
+    match c.machine {
+        EM_386 | EM_X86_64 => vec![0x90],
+        EM_MIPS => word_bytes(c, 0),
+        EM_PPC => word_bytes(c, 0x6000_0000),
+        _ => word_bytes(c, 0xD503_201F),
+    }
+}
+
+/// a direct call at `site` to `target` (MIPS: with its delay slot)
+fn enc_call(c: Combo, site: u64, target: u64) -> Vec<u8> {
+    match c.machine {
+        EM_386 | EM_X86_64 => {
+            let rel = (target as i64 - (site as i64 + 5)) as i32;
+            let mut v = vec![0xE8];
+            v.extend_from_slice(&rel.to_le_bytes());
+            v
+        }
+        EM_MIPS => {
+            let mut v = word_bytes(c, 0x0C00_0000 | (((target >> 2) as u32) & 0x03FF_FFFF));
+            v.extend(word_bytes(c, 0));
+            v
+        }
+        EM_PPC => word_bytes(c, 0x4800_0001 | (((target as i64 - site as i64) as u32) & 0x03FF_FFFC)),
+        _ => word_bytes(c, 0x9400_0000 | ((((target as i64 - site as i64) >> 2) as u32) & 0x03FF_FFFF)),
+    }
+}
+
+fn enc_ret(c: Combo) -> Vec<u8> {
+    match c.machine {
+        EM_386 | EM_X86_64 => vec![0xC3],
+        EM_MIPS => {
+            let mut v = word_bytes(c, 0x03E0_0008);
+            v.extend(word_bytes(c, 0));
+            v
+        }
+        EM_PPC => word_bytes(c, 0x4E80_0020),
+        _ => word_bytes(c, 0xD65F_03C0),
+    }
+}
+
+fn gen_code_image(rng: &mut Rng, id: u64) -> (Image, Vec<u64>, Value) {
+    let combo = COMBOS[(id % 7) as usize];
+    let region: u64 = *rng.pick(&[0x40_0000u64, 0x0804_8000, 0x1_0000]);
+    let nfun = rng.range(2, 5);
+    let slot = 0x40u64;
+    let text_len = nfun * slot;
+    let data_addr = region + 0x1000;
+    let fun_addr = |j: u64| region + j * slot;
+    let mut text: Vec<u8> = Vec::new();
+    let mut code = Vec::new();
+    let bad = if rng.chance(1, 6) { Some(rng.range(1, nfun - 1).min(nfun - 1)) } else { None };
+    for j in 0..nfun {
+        let start = text.len() as u64;
+        let mut calls = Vec::new();
+        if Some(j) == bad {
+            // not an instruction of any of the five instruction sets
+            text.extend_from_slice(&[0xFF, 0xFF, 0xFF, 0xFF]);
+        } else {
+            for _ in 0..rng.below(3) {
+                text.extend(enc_nop(combo));
+            }
+            for _ in 0..rng.below(4) {
+                let target = match rng.below(12) {
+                    0 => data_addr + 4 * rng.below(4),         // not executable
+                    1 => region + 0x3000 + 16 * rng.below(4),  // not mapped
+                    _ => fun_addr(rng.below(nfun)),
+                };
+                let site = region + text.len() as u64;
+                text.extend(enc_call(combo, site, target));
+                if !calls.contains(&target) {
+                    calls.push(target);
+                }
+                if rng.chance(1, 3) {
+                    text.extend(enc_nop(combo));
+                }
+            }
+            text.extend(enc_ret(combo));
+            code.push(json!({ "addr": addr(fun_addr(j)), "calls": calls.iter().map(|t| addr(*t)).collect::<Vec<_>>(),
+                              "kind": if combo.machine == EM_MIPS { "abs" } else { "rel" } }));
+        }
+        assert!(text.len() as u64 - start <= slot);
+        while (text.len() as u64) < (j + 1) * slot {
+            text.extend(enc_nop(combo));
+        }
+    }
+    let segs = vec![
+        Seg { ptype: PT_LOAD, vaddr: region, filesz: text_len, memsz: text_len, flags: 5, content: text, off: 0, fixed_off: false },
+        Seg { ptype: PT_LOAD, vaddr: data_addr, filesz: 16, memsz: 24, flags: 6, content: rand_bytes(rng, 16), off: 0, fixed_off: false },
+    ];
+    // function 0 is always a symbol; the others are symbols, user entries, or only reachable by calls
+    let mut symtab = Vec::new();
+    let mut users = Vec::new();
+    for j in 0..nfun {
+        match if j == 0 { 0 } else { rng.below(4) } {
+            0 | 1 => symtab.push(Sym { name: format!("f{}", j), value: fun_addr(j), typ: 2, bind: if rng.chance(1, 4) { 2 } else { 1 }, shndx: 1 }),
+            2 => users.push(fun_addr(j)),
+            _ => {}
+        }
+    }
+    if rng.bool() {
+        symtab.push(Sym { name: "datafn".into(), value: data_addr + 4, typ: 2, bind: 1, shndx: 2 }); // a function symbol in rw- memory
+    }
+    symtab.push(Sym { name: "obj".into(), value: data_addr, typ: 1, bind: 1, shndx: 2 });
+    let entry = fun_addr(rng.below(nfun));
+    let img = Image { combo, etype: 2, entry, segs, symtab, dynsym: Vec::new(), pltrel: Vec::new(), dynrel: Vec::new(), needed: Vec::new(), dynamic: false, dyn_vaddr: 0, mips_got: None, nsect: 2 };
+    (img, users, json!({ "code": code }))
+}
+
+fn mode_code(out: &mut Out, n: u64, rng: &mut Rng) {
+    for id in 0..n {
+        let (img, users, extra) = gen_code_image(rng, id);
+        session_with(out, id, "code", &img, &users, rng, Some(extra));
     }
 }
 
@@ -1042,6 +1223,81 @@ fn mode_link(out: &mut Out, n: u64, dir: &str, rng: &mut Rng) {
 }
 
 // ------------------------------------------------------------------------------------------
+// the JSON loader: the same Load interface, fed from a program specification in JSON
+// ------------------------------------------------------------------------------------------
+fn base64(b: &[u8], pad: bool) -> String {
+    const T: &[u8; 64] = b"ABCDEFGHIJKLMNOPQRSTUVWXYZabcdefghijklmnopqrstuvwxyz0123456789+/";
+    let mut s = String::new();
+    for c in b.chunks(3) {
+        let n = (c[0] as u32) << 16 | (*c.get(1).unwrap_or(&0) as u32) << 8 | *c.get(2).unwrap_or(&0) as u32;
+        s.push(T[(n >> 18) as usize & 63] as char);
+        s.push(T[(n >> 12) as usize & 63] as char);
+        if c.len() > 1 {
+            s.push(T[(n >> 6) as usize & 63] as char);
+        } else if pad {
+            s.push('=');
+        }
+        if c.len() > 2 {
+            s.push(T[n as usize & 63] as char);
+        } else if pad {
+            s.push('=');
+        }
+    }
+    s
+}
+
+/// description -> the text of the JSON file (what scripts/binaryninja-falcon writes: arch,
+/// entry, functions [{name, address}], segments [{address, bytes: base64}])
+fn json_text(j: &Value) -> String {
+    let pad = j["pad"].as_bool().unwrap();
+    let funcs: Vec<Value> = j["functions"].as_array().unwrap().iter()
+        .map(|f| json!({ "name": f["name"], "address": addr_back(&f["address"]) })).collect();
+    let segs: Vec<Value> = j["segments"].as_array().unwrap().iter()
+        .map(|g| {
+            let bytes: Vec<u8> = g["bytes"].as_array().unwrap().iter().map(|b| b.as_u64().unwrap() as u8).collect();
+            json!({ "address": addr_back(&g["address"]), "bytes": base64(&bytes, pad) })
+        }).collect();
+    json!({ "arch": j["arch"], "entry": addr_back(&j["entry"]), "functions": funcs, "segments": segs }).to_string()
+}
+
+fn json_session(out: &mut Out, id: u64, dir: &str, j: &Value, rng: &mut Rng) {
+    std::fs::create_dir_all(dir).expect("json dir");
+    let path = format!("{}/j{}.json", dir, id);
+    std::fs::write(&path, json_text(j)).expect("write json");
+    out.emit(&json!({ "ev": "begin", "id": id, "src": "json", "jdesc": j }));
+    out.emit(&json!({ "ev": "load", "base": addr(0), "users": [] }));
+    let r = guard(|| Json::from_file(std::path::Path::new(&path)));
+    out.emit(&json!({ "ev": "new", "res": r.json(|_| json!(1)) }));
+    if let Some(l) = r.ok() {
+        out.emit(&json!({ "ev": "arch", "name": l.architecture().name(),
+            "endian": match l.architecture().endian() { falcon::architecture::Endian::Big => "big", falcon::architecture::Endian::Little => "little" } }));
+        queries("", out, &l, rng);
+    }
+    let _ = std::fs::remove_file(&path);
+}
+
+fn mode_json(out: &mut Out, n: u64, dir: &str, rng: &mut Rng) {
+    for id in 0..n {
+        let region: u64 = *rng.pick(&[0x1000u64, 0x0804_8000, 0x7fff_f000, 0xffff_0000, 0x1_0000_0000, 0x7fff_ffff_ffff_0000]);
+        let clustered = rng.chance(1, 3);
+        let mut segs = Vec::new();
+        for i in 0..rng.below(4) {
+            let len = match rng.below(8) { 0 => 0, 1 => 3 * rng.range(1, 6), _ => rng.range(1, 20) };
+            let a = if clustered { region + rng.below(24) } else { region + i * 0x100 + rng.below(8) };
+            segs.push(json!({ "address": addr(a), "bytes": rand_bytes(rng, len).iter().map(|b| *b as u64).collect::<Vec<_>>() }));
+        }
+        let mut funcs = Vec::new();
+        for i in 0..rng.below(5) {
+            let a = match rng.below(6) { 0 => 0, _ => region + rng.below(0x120) };
+            funcs.push(json!({ "address": addr(a), "name": format!("fn{}", i) }));
+        }
+        let entry = if rng.chance(1, 4) && !funcs.is_empty() { addr_back(&funcs[0]["address"]) } else { region + rng.below(0x40) };
+        let j = json!({ "arch": "x86", "entry": addr(entry), "functions": funcs, "segments": segs, "pad": rng.chance(2, 3) });
+        json_session(out, id, dir, &j, rng);
+    }
+}
+
+// ------------------------------------------------------------------------------------------
 // real files, dump, replay
 // ------------------------------------------------------------------------------------------
 fn mode_files(out: &mut Out, list: &str, rng: &mut Rng) {
@@ -1053,7 +1309,7 @@ fn mode_files(out: &mut Out, list: &str, rng: &mut Rng) {
         let is64 = item["desc"]["cls"].as_u64() == Some(64);
         let users: Vec<u64> = item["users"].as_array().map(|v| v.iter().map(addr_back).collect()).unwrap_or_default();
         for base in bases_for(is64) {
-            observe(out, &bytes, base, &users, rng);
+            observe(out, &bytes, base, &users, rng, true);
         }
     }
 }
@@ -1066,6 +1322,16 @@ fn mode_dump(out: &mut Out, n: u64, dir: &str, rng: &mut Rng) {
         let p = format!("{}/g{}.elf", dir, id);
         std::fs::write(&p, &wr.file).expect("write");
         out.emit(&json!({ "path": p, "desc": desc_json(&img, &wr) }));
+    }
+    // generated code images (the call graph is checked against a disassembler by checks/c19.py)
+    for id in 0..(n / 2 + 7) {
+        let (img, _, extra) = gen_code_image(rng, id);
+        let wr = write_elf(&img);
+        let p = format!("{}/c{}.elf", dir, id);
+        std::fs::write(&p, &wr.file).expect("write");
+        let mut d = desc_json(&img, &wr);
+        d["code"] = extra["code"].clone();
+        out.emit(&json!({ "path": p, "desc": d }));
     }
     // and the objects of a few linked sets (dynamic sections, relocations, MIPS GOT)
     for id in 0..(n / 4 + 3) {
@@ -1091,6 +1357,10 @@ fn mode_replay(out: &mut Out, input: &str, dir: &str, rng: &mut Rng) {
         link_session(out, s["id"].as_u64().unwrap_or(0), dir, &objs, &s["relocs"], &s["free"], rng);
         return;
     }
+    if s["src"] == "json" {
+        json_session(out, s["id"].as_u64().unwrap_or(0), dir, &s["jdesc"], rng);
+        return;
+    }
     let bytes = if let Some(h) = s["file"].as_str() {
         unhex(h)
     } else {
@@ -1102,7 +1372,7 @@ fn mode_replay(out: &mut Out, input: &str, dir: &str, rng: &mut Rng) {
     out.emit(&b);
     for l in rep["loads"].as_array().unwrap() {
         let users: Vec<u64> = l["users"].as_array().unwrap().iter().map(addr_back).collect();
-        observe(out, &bytes, addr_back(&l["base"]), &users, rng);
+        observe(out, &bytes, addr_back(&l["base"]), &users, rng, s["src"] == "code" || s["src"] == "file");
     }
 }
 
@@ -1115,6 +1385,8 @@ fn main() {
     match mode.as_str() {
         "random" => mode_random(&mut out, arg_u64("n", 100), &mut rng),
         "enum" => mode_enum(&mut out, arg_u64("maxsz", 2), &mut rng),
+        "code" => mode_code(&mut out, arg_u64("n", 20), &mut rng),
+        "json" => mode_json(&mut out, arg_u64("n", 20), &dir, &mut rng),
         "files" => mode_files(&mut out, &arg_str("list", ""), &mut rng),
         "link" => mode_link(&mut out, arg_u64("n", 10), &dir, &mut rng),
         "dump" => mode_dump(&mut out, arg_u64("n", 20), &dir, &mut rng),
